@@ -576,7 +576,9 @@ func (self *Value) updateByteLen(originLen int, address []int, isPacked bool, pa
 			newLength := int(length) + diffLen
 			newBytes = protowire.AppendVarint(newBytes, uint64(newLength))
 			// length == 0 means had been deleted all the data in the field
-			if newLength == 0 {
+			// NOTICE: a packed list without elements is dropped, but a message (field, list element or map value) is still present when it is empty
+			dropField := newLength == 0 && childType == proto.LIST
+			if dropField {
 				newBytes = newBytes[:0]
 			}
 
@@ -590,7 +592,7 @@ func (self *Value) updateByteLen(originLen int, address []int, isPacked bool, pa
 
 			// split length
 			srcHead := rt.AddPtr(self.v, uintptr(addressPtr+tagOffset))
-			if newLength == 0 {
+			if dropField {
 				// delete tag
 				srcHead = rt.AddPtr(self.v, uintptr(addressPtr))
 				subLen -= tagOffset
